@@ -41,6 +41,10 @@ pub enum RKind {
     IterScan,
     /// plain gets without a snapshot: only checked for transient (overwritten inside a batch) values
     PlainGets,
+    /// C03 under concurrency: take a snapshot, an iterator at it and an implicit iterator; read
+    /// everything, let the writers move on, read everything again: the snapshot's gets must not
+    /// change, get and iteration must agree at the snapshot, an iterator must repeat itself
+    SnapshotReread,
 }
 
 #[derive(Clone, Debug, Serialize, Deserialize, PartialEq, Eq, Hash)]
@@ -76,6 +80,27 @@ fn decode(v: &[u8]) -> Option<(u64, u64)> {
     Some((u64::from_be_bytes(v[..8].try_into().unwrap()), u64::from_be_bytes(v[8..16].try_into().unwrap())))
 }
 
+fn scan_all<I: RainDbIterator<Key = Vec<u8>, Error = RainDBError>>(it: &mut I) -> Result<BTreeMap<Vec<u8>, Vec<u8>>, String> {
+    let mut m = BTreeMap::new();
+    it.seek_to_first().map_err(|e| format!("seek_to_first returned {e:?}"))?;
+    while it.is_valid() {
+        let (k, v) = it.current().unwrap();
+        m.insert(k.clone(), v.clone());
+        it.next();
+    }
+    Ok(m)
+}
+
+fn show(v: &Option<Vec<u8>>) -> String {
+    match v {
+        None => "absent".into(),
+        Some(v) => match decode(v) {
+            Some((g, c)) => format!("batch {c} of group {g}"),
+            None => format!("{} bytes", v.len()),
+        },
+    }
+}
+
 #[derive(Default, Clone, Debug)]
 pub struct BStats {
     pub nontrivial: bool,
@@ -83,6 +108,8 @@ pub struct BStats {
     pub reads_while_writer_held: u64,
     pub holds: u64,
     pub classes: Vec<&'static str>,
+    /// SnapshotReread rounds during which the latest state of some group changed
+    pub rereads_spanning_a_write: u64,
 }
 
 pub fn run_case(case: &BatchCase) -> Result<BStats, String> {
@@ -102,6 +129,7 @@ pub fn run_case(case: &BatchCase) -> Result<BStats, String> {
     let errors: Arc<Mutex<Vec<String>>> = Arc::new(Mutex::new(vec![]));
     let reads = Arc::new(AtomicU64::new(0));
     let reads_held = Arc::new(AtomicU64::new(0));
+    let rereads_moved = Arc::new(AtomicU64::new(0));
     let stop = Arc::new(AtomicBool::new(false));
     let barrier = Arc::new(Barrier::new(nw + nr));
     let mut handles = vec![];
@@ -155,8 +183,8 @@ pub fn run_case(case: &BatchCase) -> Result<BStats, String> {
     }
     for r in 0..nr {
         let role = nw + r;
-        let (db, prog, barrier, errors, writers_left, groups, st, reads, reads_held, stop) = (
-            db.clone(), case.readers[r].clone(), barrier.clone(), errors.clone(), writers_left.clone(), groups.clone(), st.clone(), reads.clone(), reads_held.clone(), stop.clone(),
+        let (db, prog, barrier, errors, writers_left, groups, st, reads, reads_held, stop, rereads_moved) = (
+            db.clone(), case.readers[r].clone(), barrier.clone(), errors.clone(), writers_left.clone(), groups.clone(), st.clone(), reads.clone(), reads_held.clone(), stop.clone(), rereads_moved.clone(),
         );
         handles.push(std::thread::Builder::new().name(format!("reader-{r}")).spawn(move || {
             sched::set_role(role as i32);
@@ -255,6 +283,73 @@ pub fn run_case(case: &BatchCase) -> Result<BStats, String> {
                         }
                         check(&obs, "plain gets");
                     }
+                    RKind::SnapshotReread => {
+                        let all_keys: Vec<Vec<u8>> =
+                            groups.iter().enumerate().flat_map(|(g, sz)| (0..*sz).map(move |j| gkey(g, j))).collect();
+                        let gets = |snap: Option<&raindb::Snapshot>| -> Result<Vec<Option<Vec<u8>>>, String> {
+                            let mut out = vec![];
+                            for k in &all_keys {
+                                let ro = ReadOptions { fill_cache: true, snapshot: snap.cloned() };
+                                match db.get(ro, k) {
+                                    Ok(v) => out.push(Some(v)),
+                                    Err(RainDBError::KeyNotFound) => out.push(None),
+                                    Err(e) => return Err(format!("get returned {e:?} in a fault-free run")),
+                                }
+                            }
+                            Ok(out)
+                        };
+                        let scan = scan_all;
+                        let snap = db.get_snapshot();
+                        let round = (|| -> Result<bool, String> {
+                            let mut it_s = db
+                                .new_iterator(ReadOptions { fill_cache: true, snapshot: Some(snap.clone()) })
+                                .map_err(|e| format!("new_iterator returned {e:?}"))?;
+                            let mut it_i = db.new_iterator(ReadOptions::default()).map_err(|e| format!("new_iterator returned {e:?}"))?;
+                            let latest0 = gets(None)?;
+                            let g1 = gets(Some(&snap))?;
+                            let i1 = scan(&mut it_i)?;
+                            // let the writers move on (affects coverage only)
+                            std::thread::sleep(Duration::from_millis(2));
+                            let g2 = gets(Some(&snap))?;
+                            let s1 = scan(&mut it_s)?;
+                            let i2 = scan(&mut it_i)?;
+                            let latest1 = gets(None)?;
+                            for (idx, k) in all_keys.iter().enumerate() {
+                                if g1[idx] != g2[idx] {
+                                    return Err(format!(
+                                        "C03: two gets of {} at the same snapshot returned different results: first {}, later {}",
+                                        String::from_utf8_lossy(k),
+                                        show(&g1[idx]),
+                                        show(&g2[idx])
+                                    ));
+                                }
+                                if s1.get(k) != g1[idx].as_ref() {
+                                    return Err(format!(
+                                        "C03: get and iteration disagree at the same snapshot for {}: get {}, iterator {}",
+                                        String::from_utf8_lossy(k),
+                                        show(&g1[idx]),
+                                        show(&s1.get(k).cloned())
+                                    ));
+                                }
+                            }
+                            if i1 != i2 {
+                                return Err("C03: an iterator returned different contents on its second pass over the database".into());
+                            }
+                            Ok(latest0 != latest1)
+                        })();
+                        db.release_snapshot(snap);
+                        match round {
+                            Ok(moved) => {
+                                if moved {
+                                    rereads_moved.fetch_add(1, Ordering::SeqCst);
+                                }
+                            }
+                            Err(e) => {
+                                errors.lock().unwrap().push(e);
+                                stop.store(true, Ordering::SeqCst);
+                            }
+                        }
+                    }
                     RKind::IterScan => {
                         match db.new_iterator(ReadOptions::default()) {
                             Ok(mut it) => {
@@ -310,6 +405,7 @@ pub fn run_case(case: &BatchCase) -> Result<BStats, String> {
         reads: reads.load(Ordering::SeqCst),
         reads_while_writer_held: reads_held.load(Ordering::SeqCst),
         holds: st.hold_count.load(Ordering::SeqCst),
+        rereads_spanning_a_write: rereads_moved.load(Ordering::SeqCst),
         ..Default::default()
     };
     stats.nontrivial = stats.reads_while_writer_held > 0;
@@ -396,16 +492,44 @@ pub fn worker(ctx: &WorkerCtx) -> WorkerResult {
     };
     let cases = std::env::var("VERIF_CASES").ok().and_then(|s| s.parse().ok()).unwrap_or(cases);
     let res = RefCell::new(WorkerResult::default());
+    campaign(ctx, "C06", strategy(), cases, 6, &res);
+    res.into_inner()
+}
+
+/// C03 under concurrency: snapshots and iterators taken while writers are held inside apply.
+pub fn worker_c03_conc(ctx: &WorkerCtx, res: &RefCell<WorkerResult>) {
+    if !res.borrow().violations.is_empty() {
+        return;
+    }
+    let cases = match ctx.tier {
+        Tier::Quick => 1600u64,
+        Tier::Thorough => 40_000,
+    };
+    let cases = std::env::var("VERIF_CASES").ok().and_then(|s| s.parse::<u64>().ok()).map(|c| (c / 6).max(1)).unwrap_or(cases);
+    campaign(ctx, "C03", strategy_c03(), cases, 33, res);
+}
+
+fn strategy_c03() -> BoxedStrategy<BatchCase> {
+    (strategy(), prop::collection::vec(prop::collection::vec(Just(RKind::SnapshotReread), 1..2), 1..=2))
+        .prop_map(|(mut c, readers)| {
+            c.readers = readers;
+            // directives that referred to readers beyond the new reader count simply never fire
+            c
+        })
+        .boxed()
+}
+
+fn campaign(ctx: &WorkerCtx, id: &'static str, strat: BoxedStrategy<BatchCase>, cases: u64, stream: u64, res: &RefCell<WorkerResult>) {
     let failed = RefCell::new(false);
     let first: RefCell<Option<(BatchCase, String)>> = RefCell::new(None);
     let mut runner = TestRunner::new(Config {
         cases: ctx.share(cases).max(1) as u32,
-        rng_seed: RngSeed::Fixed(ctx.derived_seed(6)),
+        rng_seed: RngSeed::Fixed(ctx.derived_seed(stream)),
         failure_persistence: None,
         max_shrink_iters: 150,
         ..Config::default()
     });
-    let outcome = runner.run(&strategy(), |case| {
+    let outcome = runner.run(&strat, |case| {
         let out = guarded(&case);
         let counting = !*failed.borrow();
         let mut r = res.borrow_mut();
@@ -420,9 +544,11 @@ pub fn worker(ctx: &WorkerCtx) -> WorkerResult {
                     }
                     *r.classes.entry("reads_total".into()).or_insert(0) += st.reads;
                     *r.classes.entry("reads_taken_while_writer_held".into()).or_insert(0) += st.reads_while_writer_held;
-                    if st.nontrivial {
+                    *r.classes.entry("snapshot_rereads_spanning_a_write".into()).or_insert(0) += st.rereads_spanning_a_write;
+                    let nontrivial = if id == "C03" { st.rereads_spanning_a_write > 0 || st.nontrivial } else { st.nontrivial };
+                    if nontrivial {
                         r.nontrivial_hashes.push(hash_json(&case));
-                        if r.samples.len() < 2 {
+                        if r.samples.len() < if id == "C03" { 4 } else { 2 } {
                             r.samples.push(serde_json::to_value(&case).unwrap());
                         }
                     }
@@ -461,11 +587,10 @@ pub fn worker(ctx: &WorkerCtx) -> WorkerResult {
                 msg = m;
             }
         }
-        let body = json!({"property": "C06", "engine": "batch", "case": case, "message": msg});
-        let path = write_replay("C06", ctx.seed, ctx.worker, 0, &body);
+        let body = json!({"property": id, "engine": "batch", "case": case, "message": msg});
+        let path = write_replay(id, ctx.seed, ctx.worker, stream as usize, &body);
         res.borrow_mut().violations.push(ViolationRec { replay: path, message: msg });
     }
-    res.into_inner()
 }
 
 pub fn replay(v: &Value) -> Result<(), String> {
